@@ -9,7 +9,7 @@ import (
 	"encoding/json"
 	"errors"
 	"fmt"
-	"math"
+	"math/big"
 	"os"
 	"path/filepath"
 	"sort"
@@ -451,9 +451,77 @@ func parseFields(s string) ([]field, bool) {
 	return out, true
 }
 
-func milliToFloat(m int64) float64 { return float64(m) / 1000 }
+// Numbers travel through the line protocol as exact decimals in thousandths, with any number of digits (int64
+// fields and operands over the whole int64 range; floats that hold 2^53, 2^62, 2^63 …). big.Int / big.Rat keep the
+// harness's own arithmetic exact; what the implementation is handed is a Go int64 / the nearest float64.
 
-func milliJSON(m int64) string { return strconv.FormatFloat(milliToFloat(m), 'f', -1, 64) }
+var big1000 = big.NewInt(1000)
+
+// MilliTok parses a thousandths token.
+func MilliTok(tok string) (*big.Int, bool) {
+	if tok == "" || tok == "-" || tok == "+" {
+		return nil, false
+	}
+	for i, c := range tok {
+		if !(c >= '0' && c <= '9') && !(i == 0 && (c == '-' || c == '+')) {
+			return nil, false
+		}
+	}
+	return new(big.Int).SetString(tok, 10)
+}
+
+// MilliFloat is the float64 nearest to m/1000 (what strconv.ParseFloat makes of the decimal; for |m| < 2^53 the
+// same as float64(m) / 1000).
+func MilliFloat(m *big.Int) float64 {
+	f, _ := new(big.Rat).SetFrac(m, big1000).Float64()
+	return f
+}
+
+// FloatMilli is the exact value of f in thousandths, rounded half away from zero.
+func FloatMilli(f float64) *big.Int {
+	r := new(big.Rat).SetFloat64(f)
+	if r == nil {
+		return big.NewInt(0)
+	}
+	return ratMilli(r)
+}
+
+func ratMilli(r *big.Rat) *big.Int {
+	r = new(big.Rat).Mul(r, new(big.Rat).SetInt(big1000))
+	// round half away from zero: floor(|r| + 1/2) with the sign of r
+	neg := r.Sign() < 0
+	a := new(big.Rat).Abs(r)
+	a.Add(a, big.NewRat(1, 2))
+	q := new(big.Int).Quo(a.Num(), a.Denom())
+	if neg {
+		q.Neg(q)
+	}
+	return q
+}
+
+// DecimalMilli is the exact value of a JSON number text in thousandths (rounded half away from zero).
+func DecimalMilli(text string) (*big.Int, bool) {
+	r, ok := new(big.Rat).SetString(text)
+	if !ok {
+		return nil, false
+	}
+	return ratMilli(r), true
+}
+
+// IntMilli is n * 1000.
+func IntMilli(n int64) *big.Int { return new(big.Int).Mul(big.NewInt(n), big1000) }
+
+// fieldFloatOK: a float FIELD value of large magnitude must be a float64 that encoding/json writes with its own
+// digits (see TextExact in gen.go): the model does not compute shortest round-trip decimals. Small decimals (the
+// thousandths the protocol always had) pass.
+func fieldFloatOK(m *big.Int) bool {
+	if new(big.Int).Abs(m).Cmp(big.NewInt(1000000000000000)) < 0 {
+		return true
+	}
+	return TextExact(m)
+}
+
+func milliJSON(m *big.Int) string { return strconv.FormatFloat(MilliFloat(m), 'f', -1, 64) }
 
 // primJSON renders a prim token (s:/i:/f:/b:) as JSON.
 func primJSON(tok string) (string, bool) {
@@ -471,8 +539,8 @@ func primJSON(tok string) (string, bool) {
 		}
 		return v, true
 	case 'f':
-		m, err := strconv.ParseInt(v, 10, 64)
-		if err != nil {
+		m, ok := MilliTok(v)
+		if !ok || !fieldFloatOK(m) {
 			return "", false
 		}
 		return milliJSON(m), true
@@ -554,11 +622,11 @@ func (e *Exec) BuildRecord(db, key, form, meta, payload string) (record.Record, 
 				}
 				r.I = n
 			case "F":
-				n, err := strconv.ParseInt(v, 10, 64)
-				if f.val[:2] != "f:" || err != nil {
+				n, ok := MilliTok(v)
+				if f.val[:2] != "f:" || !ok || !fieldFloatOK(n) {
 					return nil, false
 				}
-				r.F = milliToFloat(n)
+				r.F = MilliFloat(n)
 			case "B":
 				if f.val != "b:0" && f.val != "b:1" {
 					return nil, false
@@ -618,18 +686,19 @@ func (e *Exec) BuildRecord(db, key, form, meta, payload string) (record.Record, 
 	return nil, false
 }
 
-func showNum(f float64) string { return "n:" + strconv.FormatInt(int64(math.Round(f*1000)), 10) }
+func showNum(f float64) string { return "n:" + FloatMilli(f).String() }
 
 func showJSONPrim(v any) (string, bool) {
 	switch x := v.(type) {
 	case string:
 		return "s:" + x, true
 	case json.Number:
-		f, err := x.Float64()
-		if err != nil {
+		// the number as it is written (a 19-digit integer literal is not a float64)
+		m, ok := DecimalMilli(x.String())
+		if !ok {
 			return "", false
 		}
-		return showNum(f), true
+		return "n:" + m.String(), true
 	case bool:
 		return "b:" + b01(x), true
 	}
@@ -641,7 +710,7 @@ func ShowPayload(r record.Record) string {
 	switch x := r.(type) {
 	case *Rec:
 		l := "a[" + strings.Join(x.L, ",") + "]"
-		return fmt.Sprintf("B=b:%s;F=%s;I=n:%d;L=%s;N=o{X=n:%d};S=s:%s", b01(x.B), showNum(x.F), x.I*1000, l, x.N.X*1000, x.S)
+		return fmt.Sprintf("B=b:%s;F=%s;I=n:%s;L=%s;N=o{X=n:%s};S=s:%s", b01(x.B), showNum(x.F), IntMilli(x.I), l, IntMilli(x.N.X), x.S)
 	case *record.Wrapper:
 		if x.Format != dsd.JSON {
 			if len(x.Data) == 0 {
@@ -883,14 +952,18 @@ func parseCond(s string) (query.Condition, string, bool) {
 				val = strconv.FormatInt(n, 10) // the string form the query parser produces
 			}
 		case "feq", "fgt", "fge", "flt", "fle":
-			n, err := strconv.ParseInt(p[2], 10, 64)
-			if err != nil {
+			n, ok := MilliTok(p[2])
+			if !ok {
 				return nil, "", false
 			}
-			if n%2 == 0 {
-				val = milliToFloat(n)
-			} else {
-				val = milliJSON(n)
+			switch new(big.Int).Mod(new(big.Int).Quo(new(big.Int).Abs(n), big1000), big.NewInt(3)).Int64() {
+			case 0:
+				val = MilliFloat(n) // a float64
+			case 1:
+				val = milliJSON(n) // the string form the query parser produces (shortest float64 text)
+			default:
+				// the decimal as the user writes it: newFloatCondition parses it with strconv.ParseFloat
+				val = new(big.Rat).SetFrac(n, big1000).FloatString(3)
 			}
 		case "sa", "co", "sw", "ew":
 			val = p[2]
@@ -1221,11 +1294,11 @@ func (e *Exec) do(line string) string {
 			}
 			val = n
 		case 'f':
-			n, err := strconv.ParseInt(v, 10, 64)
-			if err != nil {
+			n, ok := MilliTok(v)
+			if !ok {
 				return "bad-op"
 			}
-			val = milliToFloat(n)
+			val = MilliFloat(n)
 		case 'b':
 			if v != "0" && v != "1" {
 				return "bad-op"
